@@ -11,7 +11,7 @@ import numpy as np
 
 from . import core, sums
 from .core import ObjV, SymList, MapSeq, LArr, LArr2, HeapArr1, HeapArr2, HeapCol, Opaque, Unsupported, is_z3, to_z3num, to_real, ite, conj, disj, neg, NONE, CLASSES, str_const
-from .interp import (ClassV, FuncV, LambdaV, BoundMethod, ArrMethod, ModuleV, BuiltinV, GenV, ForallV, ExistsV, _Raise, _Return, is_arr, is_arr2, is_concrete, concrete_int, simp, Infeasible)
+from .interp import (PyObjV, FuncBound, ClassV, FuncV, LambdaV, BoundMethod, ArrMethod, ModuleV, BuiltinV, GenV, ForallV, ExistsV, _Raise, _Return, is_arr, is_arr2, is_concrete, concrete_int, simp, Infeasible)
 
 EXC_BASES = {
     "Exception": [], "AssertionError": ["Exception"], "ValueError": ["Exception"], "KeyError": ["LookupError"], "IndexError": ["LookupError"], "LookupError": ["Exception"],
@@ -202,6 +202,8 @@ def apply(it, fv, args, kwargs, node=None):
             return it.call_merged(o, fv.name, impls, args, kwargs, node)
         fi = it._dispatch(o, fv.name, impls)
         return call_with_contract(it, fi, o, [o] + args, kwargs, node)
+    if isinstance(fv, FuncBound):
+        return it.call_function(fv.info, [fv.obj] + args, kwargs, node)
     if isinstance(fv, ArrMethod):
         return arr_method(it, fv.arr, fv.name, args, kwargs, node)
     if isinstance(fv, ClassV):
@@ -916,7 +918,27 @@ def np_exp(it, x):
 
 
 def np_argsort(it, a):
-    raise Unsupported("np.argsort on symbolic array (handled by the permutation contract of the caller)")
+    """argsort of a concrete-length symbolic array: one path per permutation consistent with a non-strict ascending order
+    (whatever numpy does on ties is one of them)"""
+    import itertools
+
+    if isinstance(a, np.ndarray) and a.dtype != object:
+        return np.argsort(a)
+    n = concrete_int(it.arr_len(a))
+    if n is None or n > 5:
+        raise Unsupported("np.argsort on an array of symbolic length")
+    rd = it.arr_reader(a)
+    vals = [to_real(rd(i)) for i in range(n)]
+    perms = list(itertools.permutations(range(n)))
+    c = it.chooser.choose(len(perms))
+    p = perms[c]
+    cond = conj(*[vals[p[i]] <= vals[p[i + 1]] for i in range(n - 1)])
+    if cond is not True:
+        if not it.feasible(cond):
+            raise Infeasible()
+        it.pc.append(cond)
+    it.assumptions_log.add("np.argsort returns a permutation that sorts its argument in non-decreasing order (any such permutation on ties)")
+    return np.array(p)
 
 
 def np_isclose(it, a, b, rtol=1e-05, atol=1e-08, equal_nan=False):
@@ -1090,4 +1112,15 @@ def spec_result(it, node, env):
     return env["__result__"]
 
 
-SPEC_FORMS = {"old": spec_old, "implies": spec_implies}
+def spec_coef(it, node, env):
+    """coef(e, x): the coefficient of the symbolic scalar x in e, for e linear in x:  e[x:=1] - e[x:=0]"""
+    e = to_real(it.eval(node.args[0], env))
+    x = it.eval(node.args[1], env)
+    if not is_z3(x) or not z3.is_const(x):
+        raise Unsupported("coef(): second argument must be a symbolic scalar")
+    one = z3.RealVal(1) if z3.is_real(x) else z3.IntVal(1)
+    zero = z3.RealVal(0) if z3.is_real(x) else z3.IntVal(0)
+    return z3.simplify(z3.substitute(e, (x, one)) - z3.substitute(e, (x, zero)))
+
+
+SPEC_FORMS = {"old": spec_old, "implies": spec_implies, "coef": spec_coef}
